@@ -469,7 +469,7 @@ def run(ctx):
         ex += [t for t in itertools.product(KINDS, repeat=3)]
     nw = ctx.workers
     chunks = [ex[k::nw] for k in range(nw)]
-    ctx.rep.extra['exhaustive'] = f'{len(ex)} command-kind sequences enumerated completely'
+    ctx.rep.extra['exhaustive_enumeration'] = f'{len(ex)} command-kind sequences enumerated completely'
     ctx.pmap(worker, [(ctx.seed * 1000 + 900 + k, ctx.budget(20, 400), chunks[k]) for k in range(nw)])
     from . import c19md
     ctx.pmap(c19md.worker, [(ctx.seed * 1000 + 950 + k, ctx.budget(6, 120)) for k in range(nw)])
